@@ -12,6 +12,7 @@ import (
 	"fmt"
 	"os"
 	"path/filepath"
+	"runtime/debug"
 	"sort"
 	"strconv"
 	"strings"
@@ -292,7 +293,11 @@ func mustJSON(v any) []byte {
 func safeCheck[C any](check func(C) error, c C) (err error) {
 	defer func() {
 		if r := recover(); r != nil {
-			err = fmt.Errorf("panic: %v", r)
+			st := string(debug.Stack())
+			if len(st) > 2500 {
+				st = st[:2500]
+			}
+			err = fmt.Errorf("panic: %v\n%s", r, st)
 		}
 	}()
 	return check(c)
